@@ -139,6 +139,8 @@ structure CS (b : EBody) where
   ctx : Option Mapping       -- the supplied Context's mapping
   it : ItSt
   swallow : Bool             -- the awaiter is `aclose()`: GeneratorExit / a return value become `None`
+  cont : Bool                -- the awaiter is a `_Continuation` (what `coro_eager` hands to the Task):
+                             -- an exception thrown before its first step is delivered to the coroutine
 
 /-- Result of one driver step. -/
 structure SR (b : EBody) where
@@ -150,9 +152,9 @@ structure SR (b : EBody) where
 variable {b : EBody}
 
 /-- `CoroStart.__init__` -> `_start()` -/
-def init (W : Wraps) (b : EBody) (ctx : Option Mapping) (cur : Mapping) : SR b :=
+def init (W : Wraps) (b : EBody) (ctx : Option Mapping) (cur : Mapping) (cont : Bool := false) : SR b :=
   let p := inCtx W.start ctx cur (ECoro.send b (.created b.init) 0)
-  ⟨⟨p.1.st, some p.1.out, p.2, .fresh, false⟩, .ret 0, p.1.m, p.1.segs⟩
+  ⟨⟨p.1.st, some p.1.out, p.2, .fresh, false, cont⟩, .ret 0, p.1.m, p.1.segs⟩
 
 /-- the awaiter completes with outcome `o` -/
 def finish (w : CS b) (o : Out) : CS b × Out :=
@@ -171,7 +173,39 @@ def relay (w : CS b) (p : R (CState b.σ) × Option Mapping) : SR b :=
   | .yield y => ⟨w1, .yield y, p.1.m, p.1.segs⟩
   | o => let f := finish w1 o; ⟨f.1, f.2, p.1.m, p.1.segs⟩
 
-/-- one `send`/`throw` on the `__await__` generator (or on a coroutine delegating to it) -/
+/-- first `send(None)` on a fresh `__await__` generator: hand out the stored `start_result` -/
+def awStart (W : Wraps) (w : CS b) (cur : Mapping) : SR b :=
+  match w.sr with
+  | none =>
+    -- "exhausted coroutine, trigger the 'cannot reuse' error"
+    let p := inCtx W.reuse w.ctx cur (ECoro.send b w.coro 0)
+    let o : Out := match p.1.out with
+      | .yield _ => .raise assertionErr
+      | .ret _ => .raise (.runtime rtRaisedStopIter)
+      | .raise e => .raise e
+    let f := finish { w with coro := p.1.st, ctx := p.2 } o
+    ⟨f.1, f.2, p.1.m, p.1.segs⟩
+  | some (.yield y) => ⟨{ w with sr := none, it := .loop }, .yield y, cur, []⟩
+  | some o => let f := finish { w with sr := none } o; ⟨f.1, f.2, cur, []⟩
+
+/-- a resumption arriving at the `yield` of the relay loop of `__await__` -/
+def awLoop (W : Wraps) (w : CS b) (r : Resume) (cur : Mapping) : SR b :=
+  match r with
+  | .send v => relay w (inCtx W.send w.ctx cur (ECoro.send b w.coro v))
+  | .throw e =>
+    if e = .genExit then
+      -- `except GeneratorExit: self._resume(self.coro.close); raise`
+      let p := inCtx W.genexit w.ctx cur (ECoro.close b w.coro)
+      let o : Out := match p.1.out with
+        | .raise e => .raise e
+        | _ => .raise .genExit
+      let f := finish { w with coro := p.1.st, ctx := p.2 } o
+      ⟨f.1, f.2, p.1.m, p.1.segs⟩
+    else relay w (inCtx W.throw w.ctx cur (ECoro.throw b w.coro e))
+
+/-- one `send`/`throw` on the awaiter: the `__await__` generator, a coroutine delegating to it,
+    or a `_Continuation` (which steps a fresh generator to its `yield` first, so that a throw
+    before the first send reaches the coroutine instead of a generator that has not started) -/
 def awResume (W : Wraps) (w : CS b) (r : Resume) (cur : Mapping) : SR b :=
   match w.it with
   | .done =>
@@ -180,54 +214,39 @@ def awResume (W : Wraps) (w : CS b) (r : Resume) (cur : Mapping) : SR b :=
     | .throw e => ⟨w, .raise e, cur, []⟩
   | .fresh =>
     match r with
-    | .throw e => let f := finish w (.raise e); ⟨f.1, f.2, cur, []⟩
-    | .send v =>
-      if v ≠ 0 then ⟨w, .raise .typeErr, cur, []⟩ else
-      match w.sr with
-      | none =>
-        -- "exhausted coroutine, trigger the 'cannot reuse' error"
-        let p := inCtx W.reuse w.ctx cur (ECoro.send b w.coro 0)
-        let o : Out := match p.1.out with
-          | .yield _ => .raise assertionErr
-          | .ret _ => .raise (.runtime rtRaisedStopIter)
-          | .raise e => .raise e
-        let f := finish { w with coro := p.1.st, ctx := p.2 } o
-        ⟨f.1, f.2, p.1.m, p.1.segs⟩
-      | some (.yield y) => ⟨{ w with sr := none, it := .loop }, .yield y, cur, []⟩
-      | some o => let f := finish { w with sr := none } o; ⟨f.1, f.2, cur, []⟩
-  | .loop =>
-    match r with
-    | .send v => relay w (inCtx W.send w.ctx cur (ECoro.send b w.coro v))
     | .throw e =>
-      if e = .genExit then
-        -- `except GeneratorExit: self._resume(self.coro.close); raise`
-        let p := inCtx W.genexit w.ctx cur (ECoro.close b w.coro)
-        let o : Out := match p.1.out with
-          | .raise e => .raise e
-          | _ => .raise .genExit
-        let f := finish { w with coro := p.1.st, ctx := p.2 } o
-        ⟨f.1, f.2, p.1.m, p.1.segs⟩
-      else relay w (inCtx W.throw w.ctx cur (ECoro.throw b w.coro e))
+      if w.cont then
+        let s := awStart W w cur
+        match s.out with
+        | .yield _ => let t := awLoop W s.w (.throw e) s.cur; { t with segs := s.segs ++ t.segs }
+        | _ => s
+      else let f := finish w (.raise e); ⟨f.1, f.2, cur, []⟩
+    | .send v => if v ≠ 0 then ⟨w, .raise .typeErr, cur, []⟩ else awStart W w cur
+  | .loop => awLoop W w r cur
 
 /-- `generator.close()` / `coroutine.close()` on the awaiter -/
 def awClose (W : Wraps) (w : CS b) (cur : Mapping) : SR b :=
   match w.it with
   | .done => ⟨w, .ret 0, cur, []⟩
-  | .fresh => ⟨{ w with it := .done, swallow := false }, .ret 0, cur, []⟩
-  | .loop =>
-    let s := awResume W w (.throw .genExit) cur
-    match s.out with
-    | .raise .genExit => { s with out := .ret 0 }
-    | .ret _ => { s with out := .ret 0 }
-    | .yield _ => { s with out := .raise (.runtime rtIgnoredGenExit) }
-    | .raise _ => s
+  | _ =>
+    if w.it = .fresh ∧ w.cont = false then
+      -- a generator / coroutine that has not started: nothing runs
+      ⟨{ w with it := .done, swallow := false }, .ret 0, cur, []⟩
+    else
+      -- throw GeneratorExit in (`_Continuation.close()` is `collections.abc.Coroutine.close`)
+      let s := awResume W w (.throw .genExit) cur
+      match s.out with
+      | .raise .genExit => { s with out := .ret 0 }
+      | .ret _ => { s with out := .ret 0 }
+      | .yield _ => { s with out := .raise (.runtime rtIgnoredGenExit) }
+      | .raise _ => s
 
 /-- first step of `await cs.athrow(e)`: throw inside the context, store the outcome as the new
     `start_result`, then `return await self` (a fresh `__await__`, driven at once). -/
 def athrow (W : Wraps) (w : CS b) (e : Exc) (cur : Mapping) : SR b :=
   let p := inCtx W.athrow w.ctx cur (ECoro.throw b w.coro e)
-  let w1 : CS b := ⟨p.1.st, some p.1.out, p.2, .fresh, false⟩
-  let s := awResume W w1 (.send 0) p.1.m
+  let w1 : CS b := ⟨p.1.st, some p.1.out, p.2, .fresh, false, false⟩
+  let s := awStart W w1 p.1.m
   { s with segs := p.1.segs ++ s.segs }
 
 /-- first step of `await cs.aclose()` -/
@@ -278,7 +297,7 @@ def step (W : Wraps) (w : CS b) (op : Op) (cur : Mapping) : SR b :=
   | .awSend v => awResume W w (.send v) cur
   | .awThrow e => awResume W w (.throw e) cur
   | .awClose => awClose W w cur
-  | .newIt => ⟨{ w with it := .fresh, swallow := false }, .ret 0, cur, []⟩
+  | .newIt => ⟨{ w with it := .fresh, swallow := false, cont := false }, .ret 0, cur, []⟩
   | .athrow e => athrow W w e cur
   | .aclose => aclose W w cur
   | .sthrow e n => sthrow W w e n cur
@@ -305,15 +324,16 @@ def runFrom (W : Wraps) (w : CS b) (cur : Mapping) : List Op → Run b
     { r with segs := s.segs ++ r.segs, outs := s.out :: r.outs }
 
 /-- `CoroStart(coro, context=ctx)` followed by a driver sequence -/
-def run (W : Wraps) (b : EBody) (ctx : Option Mapping) (cur : Mapping) (ops : List Op) : Run b :=
-  let s := init W b ctx cur
+def run (W : Wraps) (b : EBody) (ctx : Option Mapping) (cur : Mapping) (ops : List Op)
+    (cont : Bool := false) : Run b :=
+  let s := init W b ctx cur cont
   let r := runFrom W s.w s.cur ops
   { r with segs := s.segs ++ r.segs }
 
 /-- `coro_eager(coro)`: `CoroStart(coro, context=copy_context())` — the supplied mapping is a copy
-    of the caller's current one, taken at the call. -/
+    of the caller's current one, taken at the call — continued by a `_Continuation`. -/
 def eagerRun (W : Wraps) (b : EBody) (cur : Mapping) (ops : List Op) : Run b :=
-  run W b (some cur) cur ops
+  run W b (some cur) cur ops true
 
 /-! ### `coro_await` as a body, and native `await` with an environment (reference) -/
 
@@ -342,7 +362,7 @@ def coroAwaitNone (W : Wraps) (b : EBody) : EBody where
     match st with
     | none =>
       let s := init W b none m
-      let t := awResume W s.w (.send 0) s.cur
+      let t := awStart W s.w s.cur
       (some t.w, t.out, t.cur)
     | some w => let t := awResume W w r m; (some t.w, t.out, t.cur)
 
